@@ -3,6 +3,7 @@ package input
 import (
 	"context"
 	"fmt"
+	"sort"
 	"strings"
 	"sync"
 	"time"
@@ -100,6 +101,10 @@ func Normalize(deviceInfos []DeviceInfo) []Device {
 	var devices = make([]Device, 0)
 
 	for devPhys, dis := range collection {
+		// handlers of one device in a fixed order: its ID, name and handler order must not depend on the order
+		// in which the handlers were discovered
+		sort.Slice(dis, func(i, j int) bool { return dis[i].sortKey() < dis[j].sortKey() })
+
 		var dev = Device{
 			ID:       dis[0].ID,
 			Handlers: make([]Handler, 0),
